@@ -134,18 +134,34 @@ def run_property(prop, tier, seed, timeout, args, t_start):
         print(f"ERROR property={prop}: no function under contract")
         return 3
     all_obl, reports, errors = [], [], []
-    for q in sorted(funcs):
+    # modular verification: a property's check covers the functions tagged with it AND, transitively, every function whose
+    # contract those rely on (a caller is checked against the callee's contract, so the callee's own obligations belong here too)
+    tagged = set(funcs)
+    todo = sorted(funcs)
+    done = set()
+    while todo:
+        q = todo.pop(0)
+        if q in done:
+            continue
+        done.add(q)
         try:
             rep = verify.verify_function(repo, reg, q, only_variant=(int(os.environ["VERIF_VARIANT"]) if os.environ.get("VERIF_VARIANT") else None))
+            rep.tagged = q in tagged
             reports.append(rep)
             all_obl.extend(rep.obligations)
             all_obl.extend(verify.lemma_obligations(repo, reg, q))
+            if not args.only:
+                for callee in sorted(rep.calls):
+                    cc = reg.get(callee)
+                    if cc is not None and not cc.trusted and not cc.inline and callee not in done and callee not in todo:
+                        todo.append(callee)
         except Unsupported as e:
             errors.append((q, f"UNSUPPORTED {e}"))
         except KeyError as e:
             errors.append((q, f"function not found in the current tree: {e}"))
         except Exception as e:       # an engine failure on this function is never a verdict; the falsifier still runs below
             errors.append((q, f"ENGINE FAILURE {type(e).__name__}: {str(e)[:200]}"))
+    funcs = sorted(done)
     # reachability (non-vacuity) queries
     reach = []
     for q in sorted(funcs):
@@ -180,7 +196,8 @@ def run_property(prop, tier, seed, timeout, args, t_start):
     undec = [r["idx"] for r in results if r["status"] == "unknown" and not is_canary[r["idx"]]]
     if undec:
         sub = [all_obl[i] for i in undec]
-        r2 = solve.solve_all(sub, timeout=timeout * 3, seed=seed + 7)
+        # second attempt with a generous budget and fewer parallel workers (a loaded machine must not flip a verdict)
+        r2 = solve.solve_all(sub, timeout=max(60, timeout * 6), seed=seed + 7, workers=6)
         for i, r in zip(undec, r2):
             r["idx"] = i
             r["retried"] = True
@@ -330,7 +347,7 @@ def run_property(prop, tier, seed, timeout, args, t_start):
             "trusted_base": TRUSTED_BASE,
             "samples": [p for p in per_obl[:6]],
             "functions_under_contract": [{"function": r.qualname, "source": f"{os.path.relpath(r.source_lines[0], frontend.REPO)}:{r.source_lines[1]}-{r.source_lines[2]}",
-                                          "variants": r.variants, "paths": r.paths,
+                                          "variants": r.variants, "paths": r.paths, "tagged_with_property": getattr(r, "tagged", True),
                                           "callees_by_contract": sorted(r.calls)} for r in reports],
             "per_obligation": per_obl,
             "solver_time_s": round(solver_time, 2),
